@@ -97,7 +97,7 @@ func cqBytes(s string) string {
 		return `(s2b "` + s + `")`
 	}
 	if len(b) == 0 {
-		return "[]"
+		return "(@nil N)"
 	}
 	parts := make([]string, len(b))
 	for i, c := range b {
